@@ -563,9 +563,12 @@ func oracleJobs(cf *hxlib.CommonFlags, only string) []job {
 			if b.Heavy && !thorough && n > 41 {
 				continue
 			}
-			if (b.Name == "udivgold" || (b.TargetDep && strings.Contains(b.Name, "div")) ||
-				(b.TargetDep && strings.Contains(b.Name, "mod"))) && n > 65 && n != 128 && n != 130 {
-				continue
+			// the Goldschmidt divider has millions of gates above 64 bits:
+			// only the divider itself and udiv at 128 bits
+			if b.Name == "udivgold" || (b.TargetDep && (strings.Contains(b.Name, "div") || strings.Contains(b.Name, "mod"))) {
+				if n > 65 && !(n == 128 && (b.Name == "udivgold" || b.Name == "udiv")) {
+					continue
+				}
 			}
 			pairs := [][2]int{{n, n}}
 			switch i % 4 {
@@ -721,7 +724,10 @@ func corrJob(j job) *jobResult {
 	}
 	straight := bt.straightLine()
 	if c.B.Modelled && c.Opt == 0 {
-		if straight {
+		if straight && len(bt.Raw) > 200000 {
+			// the line protocol caps a result line at 8 MB
+			jr.count("t4_skipped_too_large", 1)
+		} else if straight {
 			jr.ops = append(jr.ops, [2]string{"c07 gen " + c.String(), bt.RawLine()})
 			jr.count("t4_gen_lines", 1)
 			jr.count("t4_gates", len(bt.Raw))
